@@ -55,6 +55,11 @@ FAG(c0, Valid(_)) ==
 
 XCols == IF K = 8 THEN 1..7 ELSE 0..(K - 1)          \* get_column(allow_special = true)
 
+(* Observation-guided evaluation (trace validation): `obs` is the logged column sequence of the generated pattern  *)
+(* in insertion order, or <<>> when every outcome is wanted (model checking).  A choice that would add a note the  *)
+(* log does not show at that position is dropped at once, so validating a long slider stays linear.               *)
+Match(obs, i, c) == obs = <<>> \/ (i <= Len(obs) /\ obs[i] = c)
+
 -----------------------------------------------------------------------------
 (* HitObjectPatternGenerator (circles).  x = [prev, ct, finish, clap, cd, x0] *)
 (* ct: set of flag names; cd: conversion difficulty class 0..5 for the        *)
@@ -66,7 +71,7 @@ HitNoteStep(s, x, allow, gathered) ==
   ELSE LET valid(c) == c \notin s.p.cols /\ (allow \/ c \notin x.prev.cols)
            fa == IF gathered THEN FAG(s.c, valid) ELSE FA(s.c, RS, K, valid)
        IN IF fa.fail THEN {[s EXCEPT !.err = "assert!(has_valid_column) in hit_object"]}
-          ELSE {[p |-> Add(s.p, c), c |-> c, err |-> RangeErr(c)] : c \in fa.cs}
+          ELSE {[p |-> Add(s.p, c), c |-> c, err |-> RangeErr(c)] : c \in {c2 \in fa.cs : Match(x.obs, s.p.len + 1, c2)}}
 RECURSIVE HitNotes(_, _, _, _, _)
 HitNotes(S, n, x, allow, gathered) ==
   IF n <= 0 THEN S ELSE HitNotes(UNION {HitNoteStep(s, x, allow, gathered) : s \in S}, n - 1, x, allow, gathered)
@@ -100,15 +105,16 @@ MirrorCounts(cp, p2, p3) ==  \* get_random_note_count_mirrored -> set of <<note_
       q3 == Max(0, Min(1000, c3[3]))
   IN {<<n, ctr>> \in NoteCounts(<<q2, q3, 0, 0, 0>>) \X BOOLEAN : ctr => (K % 2 # 0 /\ n # 3 /\ c3[1] > 0)}
 
-MirrorStep(s, limit) ==
+MirrorStep(s, limit, obs) ==
   IF s.err # "" THEN {s}
   ELSE LET valid(c) == c \notin s.p.cols
            fa == FA(s.c, RS, limit, valid)
        IN IF fa.fail THEN {[s EXCEPT !.err = "assert!(has_valid_column) in hit_object (mirrored)"]}
           ELSE {LET m == RS + K - c - 1
-                IN [p |-> Add(Add(s.p, c), m), c |-> c, err |-> IF InRange(c) THEN RangeErr(m) ELSE RangeErr(c)] : c \in fa.cs}
-RECURSIVE MirrorNotes(_, _, _)
-MirrorNotes(S, n, limit) == IF n <= 0 THEN S ELSE MirrorNotes(UNION {MirrorStep(s, limit) : s \in S}, n - 1, limit)
+                IN [p |-> Add(Add(s.p, c), m), c |-> c, err |-> IF InRange(c) THEN RangeErr(m) ELSE RangeErr(c)]
+                : c \in {c2 \in fa.cs : Match(obs, s.p.len + 1, c2)}}
+RECURSIVE MirrorNotes(_, _, _, _)
+MirrorNotes(S, n, limit, obs) == IF n <= 0 THEN S ELSE MirrorNotes(UNION {MirrorStep(s, limit, obs) : s \in S}, n - 1, limit, obs)
 
 GenerateMirrored(x, cp, p2, p3) ==
   IF "FORCE_NOT_STACK" \in x.ct THEN GenerateRandomPattern(x, <<500 + p2 \div 2, p2, (p2 + p3) \div 2, p3>>)
@@ -116,7 +122,7 @@ GenerateMirrored(x, cp, p2, p3) ==
            (* next_int_range(lower, upper) with upper <= lower yields lower *)
            starts == IF limit > RS THEN RS..(limit - 1) ELSE {RS}
        IN UNION {UNION {{LET s1 == IF s.err = "" /\ nc[2] THEN [s EXCEPT !.p = Add(s.p, K \div 2)] ELSE s IN Special(x, s1)
-                         : s \in MirrorNotes({[p |-> Empty, c |-> c0, err |-> ""]}, nc[1], limit)}
+                         : s \in MirrorNotes({[p |-> Empty, c |-> c0, err |-> ""]}, nc[1], limit, x.obs)}
                         : c0 \in starts} : nc \in MirrorCounts(cp, p2, p3)}
 
 Single(c) == {[p |-> Add(Empty, c), c |-> c, err |-> RangeErr(c)]}
@@ -192,9 +198,11 @@ HitFlags(cls, stair, finish, clap) ==
 (*   zero: segment_duration = 0                                                                  *)
 (* a note at row i (time start + i * seg) ends at the end time iff exact and (i = span or zero); *)
 (* a hold from any row to the end time always does; a tiled hold ends at start + span * seg      *)
-PR(p, e, c, err) == [p |-> p, e |-> e, c |-> c, err |-> err]
+PR(y, c, err) == [p |-> Empty, e |-> Empty, c |-> c, err |-> err, obs |-> y.obs]
 AddP(s, c, atEnd) == [s EXCEPT !.p = Add(s.p, c), !.e = IF atEnd THEN Add(s.e, c) ELSE s.e, !.c = c,
-                               !.err = IF s.err # "" THEN s.err ELSE RangeErr(c)]
+                               !.err = IF s.err # "" THEN s.err
+                                       ELSE IF ~Match(s.obs, s.p.len + 1, c) THEN "mismatch" ELSE RangeErr(c)]
+Live(S) == {s \in S : s.err # "mismatch"}
 RowAtEnd(y, i) == y.exact /\ (i = y.span \/ y.zero)
 RandCols == RS..(K - 1)                              \* get_random_column(None, None)
 
@@ -208,10 +216,10 @@ PathFAStep(s, Valid(_), atEnd) ==
 RECURSIVE HoldLoop(_, _, _, _)
 HoldLoop(S, n, y, usePrev) ==
   IF n <= 0 THEN S
-  ELSE HoldLoop(UNION {LET valid(c) == c \notin s.p.cols /\ (~usePrev \/ c \notin y.prev.cols) IN PathFAStep(s, valid, TRUE) : s \in S}, n - 1, y, usePrev)
+  ELSE HoldLoop(Live(UNION {LET valid(c) == c \notin s.p.cols /\ (~usePrev \/ c \notin y.prev.cols) IN PathFAStep(s, valid, TRUE) : s \in S}), n - 1, y, usePrev)
 RandomHoldNotes(y, n) ==
   LET usable == K - RS - Cardinality(y.prev.cols)
-      S0 == {PR(Empty, Empty, c, "") : c \in RandCols}
+      S0 == {PR(y, c, "") : c \in RandCols}
       S1 == HoldLoop(S0, Min(usable, n), y, TRUE)
   IN HoldLoop(S1, n - usable, y, FALSE)          \* note_count.saturating_sub(usable) on i32: plain difference, <= 0 means no iteration
 
@@ -219,20 +227,20 @@ RandomHoldNotes(y, n) ==
 RECURSIVE NotesLoop(_, _, _, _)
 NotesLoop(S, i, n, y) ==
   IF i >= n THEN S
-  ELSE NotesLoop(UNION {IF s.err # "" THEN {s}
+  ELSE NotesLoop(Live(UNION {IF s.err # "" THEN {s}
                         ELSE LET s1 == AddP(s, s.c, RowAtEnd(y, i))          \* add the note, then look for the next column
                                  valid(c) == c # s.c
                                  fa == FA(s.c, RS, K, valid)
                              IN IF s1.err # "" THEN {s1}
                                 ELSE IF fa.fail THEN {[s1 EXCEPT !.err = "assert!(has_valid_column) in path_object (random notes)"]}
-                                ELSE {[s1 EXCEPT !.c = c] : c \in fa.cs} : s \in S}, i + 1, n, y)
+                                ELSE {[s1 EXCEPT !.c = c] : c \in fa.cs} : s \in S}), i + 1, n, y)
 PathRandomNotes(y, fns, n) ==
   LET start == IF fns /\ Cardinality(y.prev.cols) < K
                THEN LET valid(c) == c \notin y.prev.cols
                         fa == FA(y.x0, RS, K, valid)
-                    IN IF fa.fail THEN {PR(Empty, Empty, y.x0, "assert!(has_valid_column) in path_object (random notes, initial)")}
-                       ELSE {PR(Empty, Empty, c, "") : c \in fa.cs}
-               ELSE {PR(Empty, Empty, y.x0, "")}
+                    IN IF fa.fail THEN {PR(y, y.x0, "assert!(has_valid_column) in path_object (random notes, initial)")}
+                       ELSE {PR(y, c, "") : c \in fa.cs}
+               ELSE {PR(y, y.x0, "")}
   IN NotesLoop(start, 0, n, y)
 
 (* generate_stair *)
@@ -240,11 +248,10 @@ RECURSIVE StairLoop(_, _, _, _, _)
 StairLoop(s, col, inc, i, y) ==
   IF i > y.span THEN s
   ELSE LET s1 == AddP(s, col, RowAtEnd(y, i))
-           up == inc /\ col < K - 1
            nxt == IF inc THEN (IF col >= K - 1 THEN col - 1 ELSE col + 1) ELSE (IF col <= RS THEN col + 1 ELSE col - 1)
            inc2 == IF inc THEN col < K - 1 ELSE col <= RS
        IN StairLoop(s1, nxt, inc2, i + 1, y)
-PathStair(y) == {StairLoop(PR(Empty, Empty, y.x0, ""), y.x0, inc, 0, y) : inc \in BOOLEAN}
+PathStair(y) == {StairLoop(PR(y, y.x0, ""), y.x0, inc, 0, y) : inc \in BOOLEAN}
 
 (* generate_random_multiple_notes *)
 U8(c) == IF c < 0 THEN 256 + c ELSE c
@@ -259,12 +266,12 @@ MultiLoop(S, i, iv, y) ==
                                n3 == n2 + RS
                                s2 == IF K > 2 THEN AddP(s1, U8(n3), RowAtEnd(y, i)) ELSE s1
                            IN {[s2 EXCEPT !.c = c] : c \in RandCols}
-       IN MultiLoop(UNION {step(s) : s \in S}, i + 1, iv, y)
+       IN MultiLoop(Live(UNION {step(s) : s \in S}), i + 1, iv, y)
 PathMulti(y) ==
   LET legacy == IF K \in 4..8 THEN 1 ELSE 0
       hi == K - legacy
       ivs == IF hi > 1 THEN 1..(hi - 1) ELSE {1}
-  IN UNION {MultiLoop({PR(Empty, Empty, y.x0, "")}, 0, iv, y) : iv \in ivs}
+  IN UNION {MultiLoop({PR(y, y.x0, "")}, 0, iv, y) : iv \in ivs}
 
 (* generate_n_random_notes *)
 PathNRandom(y, P) ==       \* P = <<p2, p3, p4>>
@@ -280,18 +287,18 @@ PathNRandom(y, P) ==       \* P = <<p2, p3, p4>>
 RECURSIVE TiledLoop(_, _, _)
 TiledLoop(S, n, y) ==
   IF n <= 0 THEN S
-  ELSE TiledLoop(UNION {LET valid(c) == c \notin s.p.cols IN PathFAStep(s, valid, y.exact) : s \in S}, n - 1, y)
-PathTiled(y) == TiledLoop({PR(Empty, Empty, y.x0, "")}, Min(y.span, K), y)
+  ELSE TiledLoop(Live(UNION {LET valid(c) == c \notin s.p.cols IN PathFAStep(s, valid, y.exact) : s \in S}), n - 1, y)
+PathTiled(y) == TiledLoop({PR(y, y.x0, "")}, Min(y.span, K), y)
 
 (* generate_hold_and_normal_notes *)
 RECURSIVE RowLoop(_, _, _, _, _)       \* n notes of one row; row = columns of the row so far
 RowLoop(S, n, hold, atEnd, y) ==
   IF n <= 0 THEN S
-  ELSE RowLoop(UNION {IF s.err # "" THEN {s}
+  ELSE RowLoop(Live(UNION {IF s.err # "" THEN {s}
                       ELSE LET valid(c) == c # hold /\ c \notin s.row
                                fa == FA(s.c, RS, K, valid)
                            IN IF fa.fail THEN {[s EXCEPT !.err = "assert!(has_valid_column) in path_object (hold and normal)"]}
-                              ELSE {[AddP(s, c, atEnd) EXCEPT !.row = s.row \cup {c}] : c \in fa.cs} : s \in S}, n - 1, hold, atEnd, y)
+                              ELSE {[AddP(s, c, atEnd) EXCEPT !.row = s.row \cup {c}] : c \in fa.cs} : s \in S}), n - 1, hold, atEnd, y)
 RECURSIVE RowsLoop(_, _, _, _, _)
 RowsLoop(S, i, n, hold, y) ==
   IF i > y.span THEN S
@@ -301,12 +308,12 @@ RowsLoop(S, i, n, hold, y) ==
 PathHoldAndNormal(y) ==
   LET P2 == IF y.cd >= 5 THEN 630 ELSE IF y.cd >= 4 THEN (IF K < 6 THEN 120 ELSE 450) ELSE IF y.cd >= 2 THEN (IF K < 6 THEN 0 ELSE 240) ELSE -1
       ns == IF P2 < 0 THEN {0} ELSE {Min(n, K - 1) : n \in NoteCounts(<<P2, 0, 0, 0, 0>>)}
-      s0 == AddP(PR(Empty, Empty, y.x0, ""), y.x0, TRUE)
-      S0 == {[p |-> s0.p, e |-> s0.e, c |-> c, err |-> s0.err, row |-> {}] : c \in RandCols}
-  IN {PR(s.p, s.e, s.c, s.err) : s \in UNION {RowsLoop(S0, 0, n, y.x0, y) : n \in ns}}
+      s0 == AddP(PR(y, y.x0, ""), y.x0, TRUE)
+      S0 == {[p |-> s0.p, e |-> s0.e, c |-> c, err |-> s0.err, obs |-> y.obs, row |-> {}] : c \in RandCols}
+  IN {[p |-> s.p, e |-> s.e, c |-> s.c, err |-> s.err, obs |-> s.obs] : s \in UNION {RowsLoop(S0, 0, n, y.x0, y) : n \in ns}}
 
 PathGenerateInner(y) ==
-  IF K = 1 THEN {AddP(PR(Empty, Empty, 0, ""), 0, TRUE)}
+  IF K = 1 THEN {AddP(PR(y, 0, ""), 0, TRUE)}
   ELSE IF y.span > 1 THEN
     (IF y.seg <= 1 THEN RandomHoldNotes(y, 1)
      ELSE IF y.seg <= 3 THEN PathRandomNotes(y, TRUE, y.span + 1)
